@@ -196,47 +196,62 @@ class Infeasible(Exception):
 
 
 def int_feasible(n, env):
-    """Exact value of int-typed sub-expressions (None for float-typed ones). Raises Infeasible when
-    evaluating would build an astronomically large integer (int ** huge int, huge factorial):
-    such cases are skipped, the implementation is never asked to compute them."""
+    """Guarded run of the reference semantics over the whole tree (python ints stay ints, / and float operands
+    give floats, sgn and factorial give ints whatever they are fed). Its only purpose is to raise Infeasible
+    BEFORE the implementation is asked to build an astronomically large integer (int ** int with a huge result,
+    towers of such powers, huge factorials); cases it rejects are skipped and counted. Anything it cannot follow
+    (missing variable, domain errors, overflow) continues as NaN, i.e. float-typed and harmless."""
+    nan = float("nan")
     k = A.kind(n)
     if k == "ConstantExpression":
         v = plain(n.value)
-        return v if is_intlike(v) else None
+        return v if isinstance(v, (int, float)) and not isinstance(v, bool) else nan
     if k == "VariableExpression":
         v = env.get(n.identifier)
-        return v if is_intlike(v) else None
+        return v if isinstance(v, (int, float)) and not isinstance(v, bool) else nan
     kids = [int_feasible(c, env) for c in (n.left, n.right) if c is not None]
-    if any(v is None for v in kids):
-        return None
-    if k == "NegateExpression":
-        return -kids[0]
-    if k == "SgnExpression":
-        return (kids[0] > 0) - (kids[0] < 0)
-    if k == "AbsExpression":
-        return abs(kids[0])
-    if k == "FactorialExpression":
-        if kids[0] > 2000:
-            raise Infeasible()
-        return math.factorial(kids[0]) if kids[0] >= 0 else None
-    if len(kids) != 2:
-        return None
-    a, b = kids
-    if k == "AddExpression":
-        return a + b
-    if k == "SubtractExpression":
-        return a - b
-    if k == "MultiplyExpression":
-        return a * b
-    if k == "PowerExpression":
-        if b < 0:
-            return None
-        if abs(a) > 1 and b * abs(a).bit_length() > 200000:
-            raise Infeasible()
-        return a**b
-    if k == "EqualExpression":
-        return a if a == b else None
-    return None  # division and anything else is float-typed
+    try:
+        if k == "NegateExpression":
+            return -kids[0]
+        if k == "SgnExpression":
+            return (kids[0] > 0) - (kids[0] < 0)
+        if k == "AbsExpression":
+            return abs(kids[0])
+        if k == "FactorialExpression":
+            v = kids[0]
+            if v != v or v in (float("inf"), float("-inf")):
+                return nan
+            iv = int(v)
+            if iv > 2000:
+                raise Infeasible()
+            return math.factorial(iv) if iv >= 0 else nan
+        if len(kids) != 2:
+            return nan
+        a, b = kids
+        if k == "AddExpression":
+            return a + b
+        if k == "SubtractExpression":
+            return a - b
+        if k == "MultiplyExpression":
+            return a * b
+        if k == "DivideExpression":
+            return nan if b == 0 else a / b
+        if k == "PowerExpression":
+            if is_intlike(a) and is_intlike(b):
+                if b < 0:
+                    return float(a) ** b if a != 0 else nan
+                if abs(a) > 1 and b * abs(a).bit_length() > 200000:
+                    raise Infeasible()
+                return a**b
+            r = math.pow(a, b)
+            return r
+        if k == "EqualExpression":
+            return a if a == b else nan
+    except Infeasible:
+        raise
+    except (OverflowError, ValueError, ZeroDivisionError, TypeError):
+        return nan
+    return nan
 
 
 def check_eval(ctx, case):
